@@ -119,18 +119,126 @@ Proof.
   destruct (negb (time_threshold cis c 0 <? end_)); [rewrite vb_fold_done; reflexivity|apply IH].
 Qed.
 
-Lemma gen_version_before_ok : forall cis cl end_, gen_version_before cis cl end_ = version_before cis cl end_.
-Proof.
-  intros cis cl end_. unfold gen_version_before, version_before.
-  match goal with |- context [fold_left ?g cl ?s0] =>
-    assert (fold_left g cl s0 = fold_left (vb_step cis end_) cl (None, false)) as ->
+(* VersionBefore, first shape (proved first below): one pass keeping the last child seen before the
+   first one that is not before [end_] — [vb_step] *)
+
+(* VersionBefore, second shape: count the children before [end_], then read the last of them by
+   index.  The read cl[n-1] is shown to be in range: the checked variant never panics. *)
+Fixpoint plen (cis end_ : Z) (cl : list child) : nat :=
+  match cl with
+  | [] => 0%nat
+  | c :: r => if negb (time_threshold cis c 0 <? end_) then 0%nat else S (plen cis end_ r)
   end.
-  - apply (fold_left_rel _ _ _ (fun a b => a = b)); [|reflexivity].
-    intros a b c ->. destruct b as [l d]. unfold vb_step. autounfold with genhelpers. cbn [fst snd]. cbv zeta.
-    rewrite ?gen_time_threshold_ok.
-    destruct d; [reflexivity|]. generalize (time_threshold cis c 0). intros tt. tree.
-  - rewrite <- vb_fold_ok. destruct (fold_left (vb_step cis end_) cl (None, false)). reflexivity.
+
+Definition cnt_step (cis end_ : Z) (st : Z * bool) (c : child) : Z * bool :=
+  if snd st then (fst st, true)
+  else if negb (time_threshold cis c 0 <? end_) then (fst st, true) else (fst st + 1, false).
+
+Lemma cnt_fold_done : forall cis end_ cl n, fold_left (cnt_step cis end_) cl (n, true) = (n, true).
+Proof. intros cis end_ cl. induction cl as [|c r IH]; intros n; [reflexivity|]. cbn [fold_left]. apply IH. Qed.
+
+Lemma cnt_fold_ok : forall cis end_ cl n,
+  fst (fold_left (cnt_step cis end_) cl (n, false)) = n + Z.of_nat (plen cis end_ cl).
+Proof.
+  intros cis end_ cl. induction cl as [|c r IH]; intros n; cbn [fold_left plen]; [cbn; lia|].
+  unfold cnt_step at 2. cbn [fst snd].
+  destruct (negb (time_threshold cis c 0 <? end_)); [rewrite cnt_fold_done; cbn; lia|].
+  rewrite IH. lia.
 Qed.
+
+Lemma plen_le : forall cis end_ cl, (plen cis end_ cl <= length cl)%nat.
+Proof.
+  intros cis end_ cl. induction cl as [|c r IH]; cbn [plen length]; [lia|].
+  destruct (negb (time_threshold cis c 0 <? end_)); lia.
+Qed.
+
+Lemma version_before_from_plen : forall cis end_ cl latest,
+  version_before_from cis cl end_ latest =
+  match plen cis end_ cl with 0%nat => latest | S k => nth_error cl k end.
+Proof.
+  intros cis end_ cl. induction cl as [|c r IH]; intros latest; cbn [version_before_from plen]; [reflexivity|].
+  destruct (negb (time_threshold cis c 0 <? end_)); [reflexivity|].
+  rewrite IH. destruct (plen cis end_ r); reflexivity.
+Qed.
+
+Lemma version_before_by_count : forall cis cl end_ n,
+  n = Z.of_nat (plen cis end_ cl) ->
+  (if n =? 0 then Ok None
+   else match get_at cl (n - 1) with Some x => Ok (Some x) | None => Err EPanic end)
+  = Ok (version_before cis cl end_).
+Proof.
+  intros cis cl end_ n ->. unfold version_before. rewrite version_before_from_plen.
+  pose proof (plen_le cis end_ cl) as Hle.
+  destruct (plen cis end_ cl) as [|k]; [reflexivity|].
+  assert (Z.of_nat (S k) =? 0 = false) as -> by (apply Z.eqb_neq; lia).
+  unfold get_at. assert (Z.of_nat (S k) - 1 <? 0 = false) as -> by (apply Z.ltb_ge; lia).
+  replace (Z.to_nat (Z.of_nat (S k) - 1)) with k by lia.
+  destruct (nth_error cl k) eqn:E; [reflexivity|]. apply nth_error_None in E. lia.
+Qed.
+
+(* a scan whose state also carries the result of a `return` from inside the loop *)
+Definition vb_ret_rel (a : option child * option (option child) * bool) (b : option child * bool) : Prop :=
+  let '(l, r, d) := a in
+  l = fst b /\ d = snd b /\ (if d then r = None \/ r = Some l else r = None).
+
+Lemma gen_version_before_both : forall cis cl end_,
+  gen_version_before_chk cis cl end_ = Ok (version_before cis cl end_) /\
+  gen_version_before cis cl end_ = version_before cis cl end_.
+Proof.
+  intros cis cl end_.
+  first
+  [ (* scan *)
+    assert (gen_version_before cis cl end_ = version_before cis cl end_) as E;
+    [ unfold gen_version_before, version_before;
+      match goal with |- context [fold_left ?g cl ?s0] =>
+        assert (fold_left g cl s0 = fold_left (vb_step cis end_) cl (None, false)) as ->
+      end;
+      [ apply (fold_left_rel _ _ _ (fun a b => a = b)); [|reflexivity];
+        intros a b c ->; destruct b as [l d]; unfold vb_step; autounfold with genhelpers; cbn [fst snd]; cbv zeta;
+        rewrite ?gen_time_threshold_ok;
+        destruct d; [reflexivity|]; generalize (time_threshold cis c 0); intros tt; tree
+      | rewrite <- vb_fold_ok; destruct (fold_left (vb_step cis end_) cl (None, false)); reflexivity ]
+    | split; [unfold gen_version_before_chk; rewrite E; reflexivity|exact E] ]
+  | (* scan that returns from inside the loop: the state carries the result once it is set *)
+    assert (gen_version_before cis cl end_ = version_before cis cl end_) as E;
+    [ unfold gen_version_before, version_before; cbv zeta;
+      rewrite <- vb_fold_ok;
+      match goal with |- context [fold_left ?g cl ?s0] =>
+        assert (vb_ret_rel (fold_left g cl s0) (fold_left (vb_step cis end_) cl (None, false))) as HR
+      end;
+      [ apply (fold_left_rel _ _ _ vb_ret_rel); [|cbn; auto];
+        intros [[l r] d] [l' d'] c (-> & -> & H); cbn [fst snd] in *; unfold vb_step; autounfold with genhelpers; cbn [fst snd]; cbv zeta;
+        rewrite ?gen_time_threshold_ok;
+        destruct d'; [cbn; auto|]; subst r; generalize (time_threshold cis c 0); intros tt;
+        destruct (tt <? end_) eqn:?; cbn; auto
+      | match type of HR with vb_ret_rel ?a ?b => destruct a as [[l r] d]; destruct b as [l' d'] end;
+        destruct HR as (-> & -> & H); cbn [fst snd] in *;
+        destruct d'; [destruct H as [->| ->]|subst r]; destruct l'; reflexivity ]
+    | split; [unfold gen_version_before_chk; rewrite E; reflexivity|exact E] ]
+  | (* count, then read by index *)
+    assert (gen_version_before_chk cis cl end_ = Ok (version_before cis cl end_)) as E;
+    [ unfold gen_version_before_chk; cbv zeta;
+      match goal with |- context [fold_left ?g cl ?s0] =>
+        assert (fold_left g cl s0 = fold_left (cnt_step cis end_) cl (0, false)) as ->
+      end;
+      [ apply (fold_left_rel _ _ _ (fun a b => a = b)); [|reflexivity];
+        intros a b c ->; destruct b as [n d]; unfold cnt_step; autounfold with genhelpers; cbn [fst snd]; cbv zeta;
+        rewrite ?gen_time_threshold_ok;
+        destruct d; [reflexivity|]; generalize (time_threshold cis c 0); intros tt; tree
+      | pose proof (cnt_fold_ok cis end_ cl 0) as Hn;
+        destruct (fold_left (cnt_step cis end_) cl (0, false)) as [n d]; cbn [fst] in Hn;
+        rewrite <- (version_before_by_count cis cl end_ n) by lia;
+        destruct (n =? 0) eqn:En; [reflexivity|];
+        destruct (get_at cl (n - 1)); reflexivity ]
+    | split; [exact E|unfold gen_version_before; rewrite E; reflexivity] ] ].
+Qed.
+
+Lemma gen_version_before_ok : forall cis cl end_, gen_version_before cis cl end_ = version_before cis cl end_.
+Proof. intros. apply gen_version_before_both. Qed.
+
+Lemma gen_version_before_chk_ok : forall cis cl end_,
+  gen_version_before_chk cis cl end_ = Ok (version_before cis cl end_).
+Proof. intros. apply gen_version_before_both. Qed.
 
 Definition res_map {A B} (f : A -> B) (r : res A) : res B :=
   match r with Ok a => Ok (f a) | Err e => Err e end.
@@ -188,6 +296,17 @@ Qed.
 
 Lemma gen_default_threshold_ok : gen_default_threshold = 30 * 60 * 1000000000.
 Proof. reflexivity. Qed.
+
+(* element reads X[i] outside the loops of the two list functions (none in the present source; a
+   counting loop followed by cl[n-1] is such a read) are in range: the checked variants, in which
+   such a read may fail, never do *)
+Theorem generated_reads_in_range :
+  (forall cis cl end_, gen_version_before_chk cis cl end_ = Ok (version_before cis cl end_)) /\
+  (forall cis cl cid at_ eps, gen_find_visible_chk cis cl cid at_ eps = Ok (find_visible cis cl cid at_ eps)).
+Proof.
+  split; [exact gen_version_before_chk_ok|].
+  intros. unfold gen_find_visible_chk. rewrite gen_find_visible_ok. reflexivity.
+Qed.
 
 (* everything together *)
 Theorem generated_code_is_model :
